@@ -78,6 +78,14 @@ def run(R, ctx):
 def replay(R, payload):
     if payload.get("engine") == "readyloop":
         return readygen.replay(R, payload)
+    if payload.get("engine") == "ready":
+        # an RD line carries both the input (records, files) and what the real functions returned: the driver alone re-judges it
+        d = core.run_driver(payload.get("lines") or [])
+        for m in d["mismatches"] + d["unknown"]:
+            print(m[:600])
+        bad = bool(d["mismatches"] or d["unknown"])
+        print("replay: %s" % ("still failing" if bad else "no longer failing"))
+        return 1 if bad else 0
     if payload.get("engine") == "cluster":
         return clustersuite.replay_cluster(R, payload)
     return core.generic_replay(R, payload)
